@@ -360,6 +360,11 @@ func c03(args []string) error {
 		{"nexus", "#NEXUS\nBEGIN DATA;\nDIMENSIONS NTAX=2 NCHAR=4;\nFORMAT DATATYPE=dna GAP=\xc3\xa9;\nMATRIX\na AC\xc3\xa9\nb GT\xc3\xa9\n;\nEND;\n"},
 		{"phylip", "2 0\na \nb \n"}, {"phylip", "2 0\na\nb\n"}, {"phylip-strict", "2 0\naaaaaaaaaa\nbbbbbbbbbb\n"},
 		{"clustal", "CLUSTAL W\n\na \nb \n"}, {"stockholm", "# STOCKHOLM 1.0\na \nb \n//\n"}, {"stockholm", "# STOCKHOLM 1.0\na\nb\n//\n"},
+		// entries whose sequence lines hold blanks only; Clustal blocks with one line more or less than the first
+		{"fasta", ">a\n \n"}, {"fasta", ">a\n  \n>b\n \n"}, {"fasta-unalign", ">a\nACGT\n>b\n   \n>c\nAC\n"}, {"fasta-unalign", ">a\n \n"},
+		{"fasta", ">a\nAC\n>b\n  \n"}, {"fasta-unalign", ">a\nAC GT\n>b\n \t \n"},
+		{"clustal", "CLUSTAL W\n\na AC\nb GT\n  *\n\na AC\nb GT\nb GT\n  *\n"}, {"clustal", "CLUSTAL W\n\na AC\nb GT\n  *\n\na AC\nb GT\nc GT\n  *\n"},
+		{"clustal", "CLUSTAL W\n\na AC\nb GT\n  *\n\na AC\n  *\n"}, {"clustal", "CLUSTAL W\n\na AC 2\n  *\n\na AC 4\na AC 4\n"},
 	}
 	for _, c := range corpus {
 		reqs = append(reqs, parseReq{Format: c.f, Policy: 0, Alpha: align.BOTH, PLen: 4, Input: hex.EncodeToString([]byte(c.in))})
@@ -368,6 +373,16 @@ func c03(args []string) error {
 		f := formats[r.Intn(len(formats))]
 		file := validFile(r, f)
 		in := mutateFile(r, file)
+		if (f == "fasta" || f == "fasta-unalign") && r.Intn(8) == 0 { // residue lines replaced by blanks
+			ls := bytes.SplitAfter(file, []byte("\n"))
+			all := r.Intn(2) == 0
+			for k := range ls {
+				if len(ls[k]) > 1 && ls[k][0] != '>' && (all || r.Intn(3) == 0) {
+					ls[k] = []byte(strings.Repeat(" ", 1+r.Intn(3)) + "\n")
+				}
+			}
+			in = bytes.Join(ls, nil)
+		}
 		if f == "clustal" && r.Intn(2) == 0 { // assembled line by line: every state of the modelled parser
 			in = clustalHand(r)
 			if r.Intn(6) == 0 {
@@ -473,13 +488,15 @@ func clustalHand(r *rand.Rand) []byte {
 		w := 1 + r.Intn(6)
 		total += w
 		n := nseq
-		if bl > 0 && r.Intn(8) == 0 {
+		if bl > 0 && r.Intn(5) == 0 {
 			n = nseq + r.Intn(3) - 1
 		}
 		for i := 0; i < n; i++ {
 			nm := "z"
 			if i < nseq {
 				nm = names[i]
+			} else if r.Intn(2) == 0 {
+				nm = names[nseq-1] // the last line once more
 			}
 			if bl > 0 && r.Intn(15) == 0 {
 				nm = pick(pool)
